@@ -210,6 +210,17 @@ def _mk_filter(f, edzed):
         first = False
     if first:
         de = edzed.DataEdit()
+    if f.get('wrap'):
+        # the result is handed on as a mutable mapping that is not a dict: it means the same
+        import collections
+
+        def wrapped(data, _de=de, _w=f['wrap']):
+            res = _de(data)
+            if not isinstance(res, dict):
+                return res
+            return collections.UserDict(res) if _w == 'userdict' else collections.ChainMap({}, res)
+        wrapped.__name__ = 'wrapped_dataedit'
+        return wrapped
     return de
 
 
